@@ -117,6 +117,10 @@ def rand_script(rng):
                 cands = [s for s in cands if s in ("kill", "pass", "pill", "restart")]
             if used_sup:
                 cands = [s for s in cands if s != "sup"]
+            if stops_issued:
+                # ReceiveContext.Stop on a child that is already stopping reports ErrActorNotFound through
+                # rctx.Err, which makes the PARENT fail (supervision of P is outside this model)
+                cands = [s for s in cands if s != "ctx"]
             if maybe_stopped:
                 # once a stop may have completed, the death-watch actor removes A from the actor tree
                 # asynchronously: name/tree based stops would race with it
